@@ -11,6 +11,7 @@ structure MDecl where
   size : Nat          -- Message.totalSize measure, computed by the driver from the documented layout
   topic : String      -- message-level topic ("" = none)
   part : Int          -- what the configured (deterministic) balancer returns for this message
+  shape : String := "kv"  -- Key: k bytes / n nil / e empty-not-nil; Value: v bytes / n nil (tombstone) / e empty-not-nil
   deriving Repr
 
 structure CDecl where
@@ -35,6 +36,7 @@ structure MCfg where
   async : Bool
   compl : Bool
   topic : String
+  linger : Nat := 0
   deriving Repr
 
 structure Obs where
@@ -46,6 +48,8 @@ structure Obs where
   stuck : Nat
   stats : String := "-"
   early : Nat := 0     -- batch timers that provably fired before BatchTimeout had elapsed (sound bound, 1 ms tolerance)
+  shapes : List (String × String) := []   -- (id, shape) of every record that reached the broker, any attempt
+  wheres : List (String × (String × Int) × Nat) := []   -- Completion without error: id, Topic/Partition, Offset as reported
   deriving Repr
 
 def JReq.applied (r : JReq) : Bool := r.out == "acked" || r.out == "lost1"
@@ -172,6 +176,10 @@ def holdsC01 (cfg : MCfg) (calls : List CDecl) (journal : List JReq) (obs : Obs)
            | _ => false)
        else c.msgs.all (fun m => obs.cbs.all (·.1 != m.key)))
    else obs.cbs.isEmpty) &&
+  -- the record the broker got is the message as given: a nil Key / Value arrives as null, an empty one as empty
+  obs.shapes.all (fun x => match findMsg calls x.1 with | some d => d.2.2.shape == x.2 | none => false) &&
+  -- Completion reports where the message is: the log of that topic-partition holds it at the reported offset
+  obs.wheres.all (fun x => (logOf obs x.2.1)[x.2.2]? == some x.1) &&
   -- never written to another partition or topic
   journal.all (fun r => r.keys.all (fun k => match findMsg calls k with | some x => expectedTP cfg x.2.2 == (r.topic, r.part) | none => false)) &&
   obs.logs.all (fun l => l.2.all (fun k => match findMsg calls k with | some x => expectedTP cfg x.2.2 == l.1 | none => false)) &&
@@ -280,5 +288,23 @@ def timerDetachGo : List TEv → List (String × TEv) → Bool
     | _ => timerDetachGo rest last
 
 def timerDetachOk (evs : List TEv) : Bool := timerDetachGo evs []
+
+/-- C08 "a batch is closed once BatchTimeout has elapsed since it was OPENED" on a timed trace (clock ticks `T.Tick µs`
+before every PW.NewBatch / PW.Add / B.TimerFire): whenever the clock is read, no batch that is still attached and whose
+timer has not fired is older than `linger` = BatchTimeout + scheduling slack.  State: the clock and the attached,
+not-yet-fired batches with their opening times.  (Same bound as the model's `tick` guard, evaluated on the trace alone.) -/
+def lingerGo (linger : Nat) : Nat → List (String × String × Nat) → List TEv → Bool
+  | _, _, [] => true
+  | now, att, e :: rest =>
+    match e with
+    | ["T.Tick", t] =>
+      let t' := t.toNat!
+      att.all (fun x => decide (t' ≤ x.2.2 + linger)) && lingerGo linger t' att rest
+    | ["PW.NewBatch", pw, b] => lingerGo linger now ((pw, b, now) :: att.filter (fun x => x.1 != pw)) rest
+    | ["B.TimerFire", _, b, _] => lingerGo linger now (att.filter (fun x => x.2.1 != b)) rest
+    | ["PW.Detach", _, b, _, _] => lingerGo linger now (att.filter (fun x => x.2.1 != b)) rest
+    | _ => lingerGo linger now att rest
+
+def lingerOk (linger : Nat) (evs : List TEv) : Bool := linger == 0 || lingerGo linger 0 [] evs
 
 end KV.WriterSpec
